@@ -17,8 +17,34 @@ import (
 // ---------------------------------------------------------------- C15: index coherence
 
 type idxInfo struct {
-	cfg string
-	key bson.D
+	cfg     string
+	key     bson.D
+	unique  bool
+	expiry  int64
+	partial bson.D // nil when the index has no partial filter
+}
+
+// requestedSame: does the index model of a createIndex step describe the same
+// definition as the existing index (key, unique, expiry, partial filter)?
+func requestedSame(step bson.D, old idxInfo) bool {
+	if !sameKey(asD(getD(step, "keys")), old.key) || asB(getD(step, "unique")) != old.unique {
+		return false
+	}
+	var expiry int64
+	if v := getD(step, "ttl"); v != nil {
+		expiry = int64(asI(v)) * 1e9
+		if expiry == 0 {
+			expiry = 1
+		}
+	}
+	if expiry != old.expiry {
+		return false
+	}
+	p := optD(step, "partial")
+	if len(p) == 0 && len(old.partial) == 0 {
+		return true
+	}
+	return len(p) > 0 && len(old.partial) > 0 && ref.Cmp(p, old.partial) == 0
 }
 
 type oracleIndex struct {
@@ -40,7 +66,11 @@ func indexMap(cat *lungo.Catalog) (map[string]map[string]idxInfo, map[string]boo
 		m := map[string]idxInfo{}
 		for n, ix := range c.Indexes {
 			cfg := ix.Config()
-			m[n] = idxInfo{cfg: indexConfigString(cfg), key: *cfg.Key}
+			info := idxInfo{cfg: indexConfigString(cfg), key: *cfg.Key, unique: cfg.Unique, expiry: int64(cfg.Expiry)}
+			if cfg.Partial != nil {
+				info.partial = *cfg.Partial
+			}
+			m[n] = info
 		}
 		out[h.String()] = m
 	}
@@ -50,6 +80,27 @@ func indexMap(cat *lungo.Catalog) (map[string]map[string]idxInfo, map[string]boo
 func (o *oracleIndex) before(r *hRun, step bson.D) error {
 	o.pre, o.preExists = indexMap(r.env.engine.Catalog())
 	return nil
+}
+
+// indexMapString renders the index definitions of all namespaces canonically.
+func indexMapString(m map[string]map[string]idxInfo) string {
+	var nss []string
+	for ns := range m {
+		nss = append(nss, ns)
+	}
+	sort.Strings(nss)
+	var sb strings.Builder
+	for _, ns := range nss {
+		var names []string
+		for n := range m[ns] {
+			names = append(names, n)
+		}
+		sort.Strings(names)
+		for _, n := range names {
+			sb.WriteString(ns + "/" + n + ": " + m[ns][n].cfg + "\n")
+		}
+	}
+	return sb.String()
 }
 
 func derivedIndexName(keys bson.D) string {
@@ -72,6 +123,18 @@ func (o *oracleIndex) after(r *hRun, step, res bson.D) error {
 	op := asS(getD(step, "op"))
 	ns := asS(getD(step, "ns"))
 	ec := asS(getD(res, "err"))
+	if r.env.storeFailed {
+		// the commit could not be persisted: nothing about the indexes moves
+		r.x.Class("store-failure")
+		if ec == "" {
+			return fmt.Errorf("the store failed but the call reported success")
+		}
+		if a, b := fmt.Sprint(indexMapString(o.pre)), fmt.Sprint(indexMapString(post)); a != b {
+			return fmt.Errorf("the store failed but the index definitions changed:\n%s\n->\n%s", a, b)
+		}
+		o.checkedAfterFailure++
+		return checkIndexCoherence(cat, r.x, &o.memberChange)
+	}
 	// ---- management clauses
 	switch op {
 	case "createIndex":
@@ -96,6 +159,9 @@ func (o *oracleIndex) after(r *hRun, step, res bson.D) error {
 					}
 					return fmt.Errorf("CreateOne with the existing name %q and a different definition succeeded and replaced the index (%s -> %s); a conflicting index must be rejected", name, old.cfg, post[ns][name].cfg)
 				}
+				if !requestedSame(step, old) {
+					return fmt.Errorf("CreateOne with the existing name %q and a different definition (requested %s, existing %s) succeeded; a conflicting index must be rejected", name, show(step), old.cfg)
+				}
 				r.x.Class("create-existing-same-definition")
 			}
 			for n, info := range pre {
@@ -105,6 +171,9 @@ func (o *oracleIndex) after(r *hRun, step, res bson.D) error {
 			}
 		} else {
 			r.x.Class("create-index-rejected")
+			if old, existed := pre[name]; existed && requestedSame(step, old) && ec != "uniq" {
+				return fmt.Errorf("CreateOne of the existing index %q with the same definition failed; it must be a no-op", name)
+			}
 		}
 	case "dropIndex":
 		name := asS(getD(step, "name"))
@@ -527,6 +596,15 @@ func (o *oracleOplog) after(r *hRun, step, res bson.D) error {
 	ec := asS(getD(res, "err"))
 	if ec != "" && !isBatchOp(op) && len(events) > 0 {
 		return fmt.Errorf("a failed call logged %d event(s)", len(events))
+	}
+	if r.env.storeFailed {
+		r.x.Class("store-failure")
+		if len(events) > 0 {
+			return fmt.Errorf("a call whose commit could not be stored logged %d event(s)", len(events))
+		}
+	}
+	if op == "expire" && len(events) > 0 {
+		r.x.Class("expiry-pass-with-deletions")
 	}
 	// replay the new events on the previous contents
 	state := map[string][]logDoc{}
